@@ -401,18 +401,18 @@ class ShapeDomain(Domain):
         return None
 
     # ------------------------------------------------------------ refinement
-    def refine(self, test, truthy: bool, eng, fr) -> Dict[str, object]:
+    def refine(self, test, truthy: bool, eng, fr, _depth=0) -> Dict[str, object]:
         """Names whose value is known to have passed the selector filter when `test`
         has the given truth value: `<HandlerClass>(N, ...).isrequestsecure()` or
         `P.isrequestsecure()` with P = <HandlerClass>(N, ...)."""
         out = {}
         if not truthy:
             if isinstance(test, ast.UnaryOp) and isinstance(test.op, ast.Not):
-                return self.refine(test.operand, True, eng, fr)
+                return self.refine(test.operand, True, eng, fr, _depth)
             return out
         if isinstance(test, ast.BoolOp) and isinstance(test.op, ast.And):
             for v in test.values:
-                out.update(self.refine(v, True, eng, fr))
+                out.update(self.refine(v, True, eng, fr, _depth))
             return out
         if isinstance(test, ast.Call) and isinstance(test.func, ast.Attribute) and test.func.attr in ("isrequestsecure",):
             recv = test.func.value
@@ -431,7 +431,50 @@ class ShapeDomain(Domain):
                     sec = self.prog.resolve_method(t.cls, "isrequestsecure")
                     if sec is not None and sec.cls is self.handler_base:
                         out[ctor.args[0].id] = V(("sel",))
+        elif isinstance(test, ast.Call) and not _depth:
+            # a helper that applies the filter to one of its parameters: self._isrequestable(N), selectorissecure(N)
+            t = eng.resolver.resolve(test, fr.func, fr.concrete)
+            if t.kind == "repo" and len(t.funcs) == 1 and t.funcs[0] is not None and not t.by_name:
+                callee = t.funcs[0]
+                params = callee.params[1:] if (callee.cls is not None and callee.params[:1] == ["self"]) else callee.params
+                for p_ in self._filtered_params(callee, eng):
+                    if p_ in params:
+                        i = params.index(p_)
+                        a = test.args[i] if i < len(test.args) else next((k.value for k in test.keywords if k.arg == p_), None)
+                        if isinstance(a, ast.Name):
+                            out[a.id] = V(("sel",))
         return out
+
+    def _filtered_params(self, callee, eng):
+        """Parameters of `callee` that have passed the selector filter whenever it returns something true."""
+        cache = self.__dict__.setdefault("_filter_params", {})
+        if callee in cache:
+            return cache[callee]
+        cache[callee] = set()
+        res = None
+        # (a) the function the base filter itself delegates to: `def isrequestsecure(self): return F(self.selector)`
+        sec = self.prog.resolve_method(self.handler_base, "isrequestsecure") if self.handler_base is not None else None
+        if sec is not None and callee.cls is None:
+            for n in ast.walk(sec.node):
+                if isinstance(n, ast.Return) and isinstance(n.value, ast.Call):
+                    t = eng.resolver.resolve(n.value, sec, self.handler_base)
+                    if t.kind == "repo" and callee in t.funcs and n.value.args and norm(n.value.args[0]) in ("self.selector", "self.getselector()") \
+                            and callee.params:
+                        res = {callee.params[0]}
+        # (b) every truthy return is a conjunction containing a filter test of the parameter
+        if res is None:
+            from .prov import Frame
+
+            rets = [n for n in ast.walk(callee.node) if isinstance(n, ast.Return)]
+            per = []
+            for r in rets:
+                if r.value is None or (isinstance(r.value, ast.Constant) and not r.value.value):
+                    continue
+                got = self.refine(r.value, True, eng, Frame(callee, callee.cls, {}, (), 0), _depth=1)
+                per.append(set(got) & set(callee.params))
+            res = set.intersection(*per) if per else set()
+        cache[callee] = res
+        return res
 
     # ---------------------------------------------------------------- sinks
     def on_call(self, target, call, recv, args, kws, eng, fr):
